@@ -165,7 +165,7 @@ MDP_LINES = [
     "title\n", "= 5\n", "gen_vel = yes ; c = d\n",
 ]
 MDP_KEYS = ["nsteps", "nst", "dt", "gen_vel", "tc-grps", "", "ref-t"]
-MDP_VALS = [10, 0, "no", 0.002, "a b", "x = y", "", " 5 ", -1, 0.0, False, "0"]
+MDP_VALS = [10, 0, "no", 0.002, "a b", "x = y", "", " 5 ", -1, 0.0, False, "0", -0.0]
 
 
 def mdp_cases(ctx):
@@ -299,7 +299,7 @@ LMP_LINES = [
 ]
 LMP_KEYS = ["infretis_subcycles", "infretis_timestep", "infretis_nsteps", "infretis_name", "infretis_temperature",
             "infretis_lammpsdata", "infretis_n", "infretis_seed"]
-LMP_VALS = [1, 0.5, 300.0, "/tmp/a b/conf.lammpstrj", "name", 1000, "", "infretis_n", "x infretis_name", 0, 0.0, False, "0"]
+LMP_VALS = [1, 0.5, 300.0, "/tmp/a b/conf.lammpstrj", "name", 1000, "", "infretis_n", "x infretis_name", 0, 0.0, False, "0", -0.0]
 
 
 def lmp_cases(ctx):
